@@ -26,6 +26,7 @@ inductive DecErr where
   | anyOf | enum | null | length | string | bound | format
   | addl          -- mapstructure.Decode failed
   | noDecl (n : String) | uncompilable (why : String)
+  | unmodelled (why : String)     -- behaviour the model deliberately does not predict (outside D)
   | panic (why : String)
   | fuel
 deriving Repr, Inhabited, DecidableEq
@@ -33,7 +34,7 @@ deriving Repr, Inhabited, DecidableEq
 def DecErr.kind : DecErr → String
   | .type => "type" | .range => "range" | .required _ => "required" | .anyOf => "anyOf" | .enum => "enum"
   | .null => "null" | .length => "length" | .string => "string" | .bound => "bound" | .format => "format"
-  | .addl => "addl" | .noDecl _ => "nodecl" | .uncompilable _ => "uncompilable" | .panic _ => "panic" | .fuel => "fuel"
+  | .addl => "addl" | .noDecl _ => "nodecl" | .uncompilable _ => "uncompilable" | .unmodelled _ => "unmodelled" | .panic _ => "panic" | .fuel => "fuel"
 
 abbrev R := Except DecErr
 
@@ -57,14 +58,6 @@ where
     | _, [] => []
     | 0, _ => []
     | f + 1, fld :: rest => (fld.name, zeroOf env f fld.ty) :: zeroFields env f rest
-
-/-- resolve `type A = B` chains and find the declaration a name denotes -/
-def Env.resolve (env : Env) : Nat → String → Option Decl
-  | 0, _ => none
-  | f + 1, n =>
-    match env.find n with
-    | some d => (match d.body with | .alias t => Env.resolve env f t | _ => some d)
-    | none => none
 
 /-- bytes of a string as Go's `len` sees them -/
 def utf8Len (s : String) : Nat := s.utf8ByteSize
@@ -121,6 +114,25 @@ def checkNull : Nat → GoVal → Bool
   | 0, v => (match v with | .nil => true | _ => false)
   | d + 1, v => (match v with | .slice xs => xs.all (fun x => checkNull d x) | _ => true)
 
+/-- the text of a canonically printed number (yaml.v3 hands the scalar's text to a `string` target) -/
+def ratLexeme (q : Rat) : Option String :=
+  if q.den = 1 then some (toString q.num) else
+  -- terminating decimals with at most 12 places
+  let rec go (fuel : Nat) (scale : Nat) (places : Nat) : Option String :=
+    match fuel with
+    | 0 => none
+    | f + 1 =>
+      let x := q * (scale : Rat)
+      if x.den = 1 then
+        let n := x.num.natAbs
+        let ip := n / scale
+        let fp := n % scale
+        let fs := toString fp
+        let pad := String.ofList (List.replicate (places - fs.length) '0')
+        some ((if q < 0 then "-" else "") ++ toString ip ++ "." ++ pad ++ fs)
+      else go f (scale * 10) (places + 1)
+  go 12 10 1
+
 def jsonToIface (j : Json) : GoVal := match j with | .null => .nil | _ => .iface j
 
 /-- ASCII case folding as encoding/json's field matching does it -/
@@ -168,16 +180,29 @@ mutual
       | _, .named n, _ =>
           match env.resolve 8 n with
           | none => .error (.noDecl n)
-          | some d => if d.hasMethod then runMethod w env f d j else decode w env f d.ty j      -- G6 / G3
+          | some d =>
+            if d.hasMethod then runMethod w env f d j                                            -- G6 / G3
+            else match d.ty with
+              -- `type T time.Time` &c.: a defined type does not inherit the methods of its base type
+              | .fmt _ => .error (.unmodelled "named-format-type")
+              | _ => decode w env f d.ty j
       | .json, .ptr _, .null => .ok .nil                                                        -- G3
       | _, .ptr t, _ => (decode w env f t j).map .ptrTo                                         -- G4
       | _, .iface, _ | _, .nullTy, _ => .ok (jsonToIface j)                                     -- G5
       | .json, .fmt k, .null => .ok (.opaque "")                                                -- method called with null: no-op
+      -- yaml.v3: SerializableDate / SerializableTime have no UnmarshalYAML; the promoted time.Time text
+      -- unmarshaler wants RFC 3339 (K9)
+      | .yaml, .fmt .date, .str s | .yaml, .fmt .time, .str s =>
+          if Spec.formatOK "date-time" s then .error (.unmodelled "yaml-date-rfc3339") else .error .format
+      -- netip.Addr.UnmarshalText accepts the empty string as the zero address
+      | _, .fmt .addr, .str s => if s = "" then .ok (.opaque "") else if fmtParses .addr s then .ok (.opaque s) else .error .format
       | _, .fmt k, .str s => if fmtParses k s then .ok (.opaque s) else .error .format
+      | .yaml, .fmt _, .obj _ => .error (.unmodelled "yaml-mapping-into-format-type")
       | _, .fmt _, _ => .error .type
       | .json, _, .null => .ok (zeroOf env 32 ty)                                               -- G3: no-op
       | _, .string, .str s => .ok (.str s)
-      | .yaml, .string, .num q => if q.den = 1 then .ok (.str (toString q.num)) else .error (.uncompilable "yaml-float-lexeme")  -- Y2
+      | .yaml, .string, .num q => (match ratLexeme q with                                       -- Y2
+          | some s => .ok (.str s) | none => .error (.unmodelled "yaml-number-lexeme"))
       | .yaml, .string, .bool b => .ok (.str (if b then "true" else "false"))                   -- Y2
       | _, .bool, .bool b => .ok (.bool b)
       | _, .float64, .num q => .ok (.float q)
@@ -187,6 +212,15 @@ mutual
       | .yaml, .int k, .num q =>
           let i := truncRat q                                                                   -- Y3
           if intInRange k i then .ok (.int i) else .error .range
+      -- []uint8 is []byte: base64 text on the wire
+      | _, .slice (.int .u8), _ => .error (.unmodelled "byte-slice")
+      | _, .slice (.named n), .arr xs =>
+          if (match env.resolve 8 n with | some d => (match d.ty with | .int .u8 => true | _ => false) | none => false) then
+            .error (.unmodelled "byte-slice")
+          else
+            let t := GoTy.named n
+            let xs' := if w = .yaml && !(kindKeepsNull env 8 t) then xs.filter (fun x => !x.isNull) else xs
+            (decodeElems w env f t xs').map .slice
       | _, .slice t, .arr xs =>
           -- Y5: yaml drops null elements unless the element kind is interface, pointer, map or slice
           let xs' := if w = .yaml && !(kindKeepsNull env 8 t) then xs.filter (fun x => !x.isNull) else xs
@@ -259,7 +293,9 @@ mutual
               | some afl =>
                 if !needRaw then .error (.uncompilable "addl-raw-undeclared") else
                 match raw with
-                | none => .error (.panic "mapstructure-nil-map")
+                | none => (match afl.ty with
+                    | .map _ => .error (.panic "mapstructure-nil-map")      -- K13
+                    | _ => .ok plain)
                 | some kvs =>
                   let declared : List String := fs.flatMap (fun fl => [fl.name, if fl.name = "AdditionalProperties" then "" else
                                                                         (if fl.jsonKey = fl.name then "" else fl.jsonKey)])
@@ -312,6 +348,7 @@ mutual
             let fty : GoTy := match ty with
               | .strct tfs => (match tfs.find? (fun fl => fl.name = field) with | some fl => fl.ty | none => .iface)
               | _ => .iface
+            if !literalOK env 32 fty dv then .error (.uncompilable "default-literal") else
             match literal env f fty dv with
             | .ok x => runAfter w env f ty rest raw (setField plain field x)
             | .error _ => .error (.uncompilable "default-literal")
@@ -431,7 +468,11 @@ def runFuel (j : Json) : Nat := 4 * Json.size j + 64
 
 /-- `json.Unmarshal(bytes, &root)` / `yaml.Unmarshal` into a fresh value of the root type -/
 def unmarshal (w : Wire) (env : Env) (root : String) (j : Json) : R GoVal :=
-  decode w env (runFuel j) (.named root) j
+  -- `type T time.Time` &c. (a named definition of a format-typed string) inherits the promoted methods of the
+  -- embedded time.Time only; its wire behaviour is outside the modelled domain
+  if env.any (fun d => match d.body, d.ty with | .plain _ _, .fmt _ => true | _, _ => false) then
+    .error (.unmodelled "named-format-type")
+  else decode w env (runFuel j) (.named root) j
 
 def marshalRoot (env : Env) (root : String) (v : GoVal) : Json := marshal env 1000 (.named root) v
 
